@@ -3,10 +3,14 @@ from vlib.runner import Ob
 # C14 - PIL -> time conversion, nearest-year inference, validity windows, TZ preservation (src/pdc.c)
 
 STUBS = [
-    "models/c14_time.c: time/gmtime_r/localtime_r/mktime/timegm = proleptic Gregorian calendar without leap seconds; forward function closed form, "
-    "inverse RELATIONAL under CBMC (nondet fields + assume forward==t), tm_wday/tm_yday and mktime's normalised write-back left unconstrained "
-    "(pdc.c never reads them); validated against glibc natively (h_m14_selfcheck: 2e5 random instants + all year/February boundaries + "
-    "denormalised mday/hour as pdc.c uses them) and for uniqueness/successor-day symbolically",
+    "models/c14_time.c: time/gmtime_r/localtime_r/mktime/timegm = proleptic Gregorian calendar without leap seconds; forward function "
+    "secs_from_civil closed form (multiply/shift/add only, linear in mday/h/min/s like mktime's normalisation); inverse RELATIONAL under CBMC "
+    "(nondet fields + assume forward(fields)==t) plus ONE lemma instance: the instant a harness registered with m14_hint_civil has the registered "
+    "fields (injectivity of the forward function, proved by m14_calendar_model's successor-day step; by the solver itself for 1999..2000 in "
+    "m14_inverse_unique); tm_wday/tm_yday and mktime's normalised write-back left unconstrained (pdc.c never reads them); validated against glibc "
+    "natively on every run (h_m14_selfcheck smoke: 2e5 random instants + all year/March boundaries + denormalised mday/hour as pdc.c uses them)",
+    "models/c14_time.c: ghost log of every mktime call (fields passed, zone id in effect, secs_from_civil(fields)); the harness assertions compare the "
+    "logged fields with the expected civil fields and the API result with logged_secs - zone offset",
     "models/c14_time.c: getenv/setenv/unsetenv/tzset = abstract TZ cell {unset, ambient 'AMB', 'UTC', named}; each id a fixed symbolic UTC offset; "
     "libc zone state `active` follows the cell only at tzset() and (POSIX) inside mktime(), NOT in localtime_r (glibc behaviour)",
     "models/c14_time.c: setenv('TZ', v != ambient) may fail nondeterministically (k-th call, symbolic mask) = change_tz failure; "
@@ -47,29 +51,39 @@ def obligations(tier, seed):
 
     obs.append(Ob("m14_calendar_model", func="h_m14_selfcheck",
                   desc="calendar model: anchors (1970-01-01, 2000-03-01, 2038-01-19, 1900-01-01, 2100-03-01), leap rule against %4/%100/%400, month lengths, "
-                       "successor-day step (=> forward function strictly monotone, hence injective: the lemma behind the model's hint), seconds stay inside "
-                       "their day; the NATIVE smoke run of this harness compares the model with glibc gmtime_r/timegm (2e5 random instants, every year/March "
-                       "boundary, denormalised mday/hour) and checks the multiply-shift /100",
-                  encodes=[], defines={"M14_YLO": 1890, "M14_YHI": 2410}, bounds="years 1890..2410, every second", timeout=300, **common))
+                       "seconds stay inside their day; the NATIVE smoke run of this harness compares the model with glibc gmtime_r/timegm (2e5 random "
+                       "instants, every year/March boundary, denormalised mday/hour as pdc.c passes them) and checks the multiply-shift /100 exhaustively",
+                  encodes=[], defines={"M14_YLO": 1890, "M14_YHI": 2430}, bounds="years 1890..2430, every second", timeout=300, **common))
+    obs.append(Ob("m14_successor_day", func="h_m14_successor_day",
+                  desc="successor-day step: next day / first of next month / 1 Jan of next year is days_from_civil + 1 for every canonical date (with the anchors: "
+                       "the forward function is right by induction and strictly monotone, hence injective - the lemma behind the model's hint)",
+                  encodes=[], defines={"M14_YLO": 1890, "M14_YHI": 2430}, bounds="years 1890..2430, every day", timeout=300, **common))
+    obs.append(Ob("m14_window_lemmas", func="h_m14_window_lemmas",
+                  desc="differences of conversions within one month, as pdc.c relies on mktime's normalisation: (day+1 04:00) - (day 00:00) = 28 h, "
+                       "(day+1 04:00) - (day-1 20:00) = 32 h, 00:00 <= day h:m < day+1 04:00, (day+29 04:00) - (day h:m:s) = 29 d + 4 h - second of day > 0; "
+                       "with the logged mktime fields asserted in the window obligations this gives begin < end, the 28 h / 32 h lengths, containment of the "
+                       "converted PIL and the PTY window length for the tz (mktime) paths",
+                  encodes=[], defines={"M14_YLO": 1890, "M14_YHI": 2430}, bounds="years 1890..2430", timeout=300, **common))
     obs.append(Ob("m14_hint_consistency", func="h_m14_hint_consistency",
                   desc="the instant and the midnight registered by m14_hint_civil (what the harnesses build reference times from) equal the model's forward "
                        "function secs_from_civil of the same fields",
-                  encodes=[], defines={"M14_YLO": 1890, "M14_YHI": 2410}, bounds="years 1890..2410, every second", timeout=300, **common))
-    obs.append(Ob("m14_six_month_lemma", func="h_m14_six_month_lemma",
-                  desc="calendar corollary: month distance in [-6,+5] between canonical reference and PIL date => -215 d < t(PIL) - t(ref) < +184 d "
-                       "(turns the nearest-year rule proved in *_to_time into the 'within about six months' wording of the property)",
-                  encodes=[], defines={"M14_YLO": Q[0] - 2, "M14_YHI": Q[1] + 2}, bounds="years %d..%d" % (Q[0] - 1, Q[1] + 1), timeout=300, **common))
+                  encodes=[], defines={"M14_YLO": 1890, "M14_YHI": 2430}, bounds="years 1890..2430, every second", timeout=300, **common))
     obs.append(Ob("m14_inverse_unique", func="h_m14_inverse_unique", tier="thorough",
                   desc="the relational inverse WITHOUT hint has exactly one solution (injectivity proved by the solver rather than by the monotonicity argument)",
-                  encodes=[], defines={"M14_YLO": 1999, "M14_YHI": 2002}, bounds="years 1999..2002", timeout=1500, **common))
+                  encodes=[], defines={"M14_YLO": 1999, "M14_YHI": 2000}, bounds="years 1999..2000 (one common, one leap year), every second",
+                  solver="cadical", timeout=900, **common))
 
     for tname, (y0, y1, om) in (("", Q), ("_wide", T)):
         tr = "quick" if tname == "" else "thorough"
         b = "PIL: all 2^20; start: every second of years %d..%d in the tested zone (or taken from time()); |offsets| <= %d s; ambient TZ unset/set; " \
             "setenv/mktime/time failure injection symbolic" % (y0, y1, om)
+        obs.append(Ob("m14_six_month_lemma" + tname, func="h_m14_six_month_lemma", tier=tr,
+                      desc="calendar corollary: month distance in [-6,+5] between canonical reference and PIL date => -215 d < t(PIL) - t(ref) < +184 d "
+                           "(turns the nearest-year rule proved in *_to_time into the 'within about six months' wording of the property; both bounds are tight)",
+                      encodes=[], defines={"M14_YLO": y0 - 2, "M14_YHI": y1 + 2}, bounds="years %d..%d" % (y0 - 1, y1 + 1), timeout=300, **common))
         obs.append(Ob("lto_to_time" + tname, func="h_lto_to_time", tier=tr,
                       desc="vbi_pil_lto_to_time: -1 iff PIL invalid / Feb 29 in non-leap inferred year / environment failure; otherwise result == civil(PIL fields, "
-                           "year with month distance -6..+5 from start) - seconds_east, within (-215 d, +184 d) of start; TZ cell and libc zone restored on every exit",
+                           "year with month distance -6..+5 from start) - seconds_east (=> within (-215 d, +184 d) of start by m14_six_month_lemma); TZ cell and libc zone restored on every exit",
                       encodes=["vbi_pil_lto_to_time", "valid_pil_lto_to_time"] + ENC_COMMON, defines=_defs(y0, y1, om), bounds=b,
                       reach=["end", "ok", "feb29_ok", "feb29_refused", "other_year", "env_failure", "setenv_failed"],
                       timeout=300 if tr == "quick" else 1500, mem_gb=4, **common))
@@ -81,15 +95,17 @@ def obligations(tier, seed):
                       reach=["end", "ok", "feb29_ok", "feb29_refused", "other_year", "env_failure"],
                       timeout=300 if tr == "quick" else 1500, mem_gb=4, **common))
         obs.append(Ob("pty_window" + tname, func="h_pty_window", tier=tr, grid=tzgrid,
-                      desc="vbi_pty_validity_window: success => begin == last_transm, end == 04:00 local of day+29, begin < end; failure only on environment failure and "
+                      desc="vbi_pty_validity_window: success => begin == last_transm, end == 04:00 local of day+29 (begin < end: asserted for UTC, by m14_window_lemmas "
+                           "for the mktime path); failure only on environment failure and "
                            "leaves *begin/*end unchanged; TZ restored on every exit",
                       encodes=["vbi_pty_validity_window", "pty_utc_validity_window", "localtime_tz"] + ENC_COMMON, defines=_defs(y0, y1, om), bounds=b,
                       reach=["end", "pty_ok"], timeout=300 if tr == "quick" else 1500, mem_gb=4, **common))
         for cname, cls, creach, cdesc in (
                 ("_dated", 1, ["end", "win_feb29_indef", "win_28h", "win_32h", "win_env_failure"],
                  "dated PILs (month 1..12, day valid for the month): Feb 29 of a non-leap inferred year => [TIME_MIN, TIME_MAX]; otherwise begin = 00:00 local of "
-                 "the PIL day in the nearest year (20:00 the day before if PIL hour < 4), end = 04:00 next day, length 28 h / 32 h, begin < end, "
-                 "begin <= converted PIL < end; FALSE iff environment failure"),
+                 "the PIL day in the nearest year (20:00 the day before if PIL hour < 4), end = 04:00 next day (UTC/lto path: asserted on the values incl. "
+                 "length 28 h / 32 h, begin < end, begin <= converted PIL < end; tz path: asserted as the civil fields handed to mktime in the right zone and "
+                 "begin/end = those conversions, lengths then by m14_window_lemmas); FALSE iff environment failure"),
                 ("_codes", 2, ["end", "win_unalloc", "win_indef", "pty_ok"],
                  "all other codes per Annex F: month 0 / unallocated => FALSE; months 13/14, invalid days, TC/RIT/INT/CONT => [TIME_MIN, TIME_MAX]; "
                  "NSPV => PTY rule (begin = start, end = 04:00 of day+29)")):
